@@ -1179,6 +1179,237 @@ fn run_cli2(case: &str, c: &Cli2, args: &Args, drv: &mut Driver, rep: &mut Repor
     }
 }
 
+// ---------------------------------------------------------------- clir cases: rg with a replacement
+
+/// `rg -r <repl>` (optionally `-o`, `-U`): the replacement is expanded by the printer from a match it
+/// finds AGAIN in the reported lines (in multi-line mode in a haystack cut 128 bytes behind them), so
+/// what is written is no longer literally a delivered line.  The property still is: no 0x00 on stdout
+/// unless `--text`, and the notice / warning table.
+#[derive(Clone, Debug)]
+struct Clir {
+    pat: String,
+    repl: String,
+    only: bool,
+    ml: bool,
+    mode: String,
+    explicit: bool,
+    mmap: bool,
+    /// filler beyond the 64 KiB sniff window before the matching line?
+    big: bool,
+    seed: u64,
+    /// offset of the NUL inside the line that FOLLOWS the matching line `x` (usize::MAX: no NUL)
+    nulrel: usize,
+}
+
+const CLIR_PATTERNS_ML: [&str; 5] =
+    ["(?s)x.{129}\\z|x", "(?s)(x).{129}\\z|x", "x\\n?[^\\n]{0,200}\\z|x", "(?s)(x).{1,129}\\z|(x)", "x"];
+const CLIR_PATTERNS: [&str; 4] = ["x", "(x)", "x$", "(a*)x"];
+const CLIR_REPLS: [&str; 4] = ["$0", "$1", "[$0]", "<$1$0>"];
+
+impl Clir {
+    fn case_str(&self) -> String {
+        format!(
+            "clir pat={} repl={} o={} U={} mode={} ex={} mmap={} big={} seed={} nulrel={}",
+            hex(self.pat.as_bytes()),
+            hex(self.repl.as_bytes()),
+            self.only as u8,
+            self.ml as u8,
+            self.mode,
+            self.explicit as u8,
+            self.mmap as u8,
+            self.big as u8,
+            self.seed,
+            if self.nulrel == usize::MAX { "-".to_string() } else { self.nulrel.to_string() }
+        )
+    }
+    fn parse(parts: &[&str]) -> Option<Clir> {
+        let get = |k: &str| parts.iter().find_map(|p| p.strip_prefix(k).and_then(|r| r.strip_prefix('=')));
+        Some(Clir {
+            pat: String::from_utf8(unhex(get("pat")?)?).ok()?,
+            repl: String::from_utf8(unhex(get("repl")?)?).ok()?,
+            only: get("o")? == "1",
+            ml: get("U")? == "1",
+            mode: get("mode")?.to_string(),
+            explicit: get("ex")? == "1",
+            mmap: get("mmap")? == "1",
+            big: get("big")? == "1",
+            seed: get("seed")?.parse().ok()?,
+            nulrel: match get("nulrel")? {
+                "-" => usize::MAX,
+                v => v.parse().ok()?,
+            },
+        })
+    }
+    /// filler lines without `x`, the line `ab x`, a long line with the NUL, a few more lines
+    fn input(&self) -> Vec<u8> {
+        let mut rng = Rng::new(self.seed);
+        let mut out: Vec<u8> = vec![];
+        let filler = if self.big { SNIFF_WINDOW + 500 } else { rng.range(0, 200) };
+        while out.len() < filler {
+            for _ in 0..rng.range(1, 50) {
+                out.push(*rng.pick(b"aab  "));
+            }
+            out.push(b'\n');
+        }
+        out.extend_from_slice(b"ab x\n");
+        let mut next: Vec<u8> = (0..rng.range(130, 400)).map(|_| *rng.pick(b"aab  ")).collect();
+        if self.nulrel != usize::MAX {
+            let at = self.nulrel.min(next.len() - 1);
+            next[at] = 0;
+        }
+        out.extend_from_slice(&next);
+        out.push(b'\n');
+        for _ in 0..rng.range(0, 4) {
+            for _ in 0..rng.range(1, 300) {
+                out.push(*rng.pick(b"aab  "));
+            }
+            out.push(b'\n');
+        }
+        out
+    }
+}
+
+fn run_clir(case: &str, c: &Clir, args: &Args, drv: &mut Driver, rep: &mut Report) {
+    let rg = match &args.rg {
+        Some(p) => p.clone(),
+        None => {
+            rep.branch("clir:skipped-no-rg");
+            return;
+        }
+    };
+    rep.eval();
+    let inp = c.input();
+    let file = scratch_file(&args.scratch, "clir", &inp);
+    let cwd = args.scratch.join("clir");
+    let mut cmd = Command::new(&rg);
+    cmd.current_dir(&cwd).args(["--no-config", "--no-ignore", "-j1", "-H", "--color", "never", "--no-heading", "-n"]);
+    match c.mode.as_str() {
+        "binary" => {
+            cmd.arg("--binary");
+        }
+        "text" => {
+            cmd.arg("--text");
+        }
+        _ => {}
+    }
+    cmd.arg(if c.mmap { "--mmap" } else { "--no-mmap" });
+    if c.ml {
+        cmd.arg("-U");
+    }
+    if c.only {
+        cmd.arg("-o");
+    }
+    cmd.arg("-r").arg(&c.repl);
+    cmd.arg("-e").arg(&c.pat);
+    cmd.arg(if c.explicit { "d/f" } else { "d" });
+    let out = cmd.output().expect("run rg");
+    let stdout = out.stdout;
+    rep.branch(&format!(
+        "clir:{}:{}:{}{}",
+        c.mode,
+        if c.ml { "-U" } else { "lines" },
+        if c.mmap { "mmap" } else { "read" },
+        if c.only { ":-o" } else { "" }
+    ));
+    if !out.status.success() && out.status.code() != Some(1) {
+        // a crash of rg (exit code 2 with a panic message, or a signal) is a finding of its own
+        let err = String::from_utf8_lossy(&out.stderr).to_string();
+        if err.contains("panicked") || out.status.code().is_none() {
+            rep.violation(Violation {
+                kind: "impl_vs_spec".into(),
+                class: "".into(),
+                tie: "rg -r must not crash".into(),
+                case: case.to_string(),
+                detail: format!("rg ended with {:?}: {}", out.status.code(), &err[..err.len().min(300)]),
+            });
+            return;
+        }
+        rep.branch("clir:rg-error(pattern)");
+        return;
+    }
+    let nul_beyond_block = c.nulrel != usize::MAX;
+    if nul_beyond_block {
+        rep.branch(if c.big { "clir:nul-behind-match-beyond-sniff-window" } else { "clir:nul-behind-match" });
+        if c.nulrel < 128 {
+            rep.branch("clir:nul-within-look-ahead");
+        }
+    }
+    // ---- the property
+    if c.mode != "text" && stdout.contains(&0) {
+        rep.violation(Violation {
+            kind: "impl_vs_spec".into(),
+            class: "".into(),
+            tie: "no 0x00 on rg's stdout unless --text (with -r / -o -r / -U: the printer expands a re-found match)".into(),
+            case: case.to_string(),
+            detail: format!("rg wrote a NUL byte: {:?}", show(&stdout[..stdout.len().min(300)])),
+        });
+        return;
+    }
+    // ---- the notice / warning table, from the event stream of the same search at library level
+    let det_s = drv.ask(&format!("c14.det {} 0 {}", c.mode, c.explicit as u8));
+    let det = match Det::parse(&det_s) {
+        Some(d) => d,
+        None => return,
+    };
+    let o = Opts { ml: if c.ml { 2 } else { 0 }, late: true };
+    let m = match matcher_o(&c.pat, det, o) {
+        Some(m) => m,
+        None => {
+            rep.branch("clir:pattern-rejected");
+            return;
+        }
+    };
+    {
+        use grep_matcher::Matcher;
+        let downgrades = m.non_matching_bytes().map_or(false, |nm| nm.contains(b'\n'));
+        if c.ml && downgrades {
+            rep.branch("clir:-U-downgraded");
+        }
+    }
+    let strat = Strat::Path { mmap: c.mmap };
+    let run = lib_run_o(&m, det, 0, 0, false, &inp, &strat, Some(&file), Opts { ml: c.ml as u8, late: true });
+    if let Some(sx) = events_sx(&run.events) {
+        if run.events.iter().any(|e| e.starts_with("bin ")) && c.mode != "text" {
+            rep.branch("clir:binary-detected");
+            if let Some((d, class)) = second_sentence(det, &run.events, &stdout, &sx, drv) {
+                rep.violation(Violation {
+                    kind: "impl_vs_spec".into(),
+                    class: class.into(),
+                    tie: "second sentence of C14 (dropped / cut with warning; notice iff a line matches) on rg -r's stdout".into(),
+                    case: case.to_string(),
+                    detail: d,
+                });
+            }
+            if run.events.iter().any(|e| e.starts_with("m ")) {
+                rep.nontrivial(case);
+            }
+        }
+    }
+}
+
+fn gen_clir(rng: &mut Rng) -> Clir {
+    let ml = rng.chance(1, 2);
+    Clir {
+        pat: if ml { rng.pick(&CLIR_PATTERNS_ML).to_string() } else { rng.pick(&CLIR_PATTERNS).to_string() },
+        repl: rng.pick(&CLIR_REPLS).to_string(),
+        only: rng.chance(1, 3),
+        ml,
+        mode: rng.pick(&["auto", "auto", "binary", "binary", "text"]).to_string(),
+        explicit: rng.chance(1, 2),
+        mmap: rng.chance(2, 3),
+        big: rng.chance(2, 3),
+        seed: rng.next() % 100000,
+        nulrel: match rng.below(6) {
+            0 => usize::MAX,
+            1 => 0,
+            2 => 126,
+            3 => 127,
+            4 => 128,
+            _ => rng.below(130),
+        },
+    }
+}
+
 // ---------------------------------------------------------------- generators
 
 fn gen_binary_input(rng: &mut Rng, pat: &str) -> Vec<u8> {
@@ -1471,6 +1702,10 @@ fn run_case(case: &str, args: &Args, drv: &mut Driver, rep: &mut Report) {
             Some(c) => run_cli2(case, &c, args, drv, rep),
             None => rep.notes.push(format!("unparsable case: {}", case)),
         },
+        Some("clir") => match Clir::parse(&parts) {
+            Some(c) => run_clir(case, &c, args, drv, rep),
+            None => rep.notes.push(format!("unparsable case: {}", case)),
+        },
         Some("cli") => match Cli::parse(&parts) {
             Some(c) => run_cli(case, &c, args, drv, rep),
             None => rep.notes.push(format!("unparsable case: {}", case)),
@@ -1493,6 +1728,9 @@ fn main() {
          plus -c, plus -U with patterns that cannot match a newline (the searcher falls back to line mode; bs: also patterns \
          that can, and the detection mode set after build as rg does), plus one NUL at -2..+1 around the 64 KiB sniff window \
          and around the fill boundaries of small roll buffers, in delivered and non-delivered lines. \
+         clir: rg -r '$0' / '$1' / -o -r, line-oriented and -U (patterns whose re-found match reaches beyond the reported \
+         lines at the 128-byte look-ahead cut), all binary modes, a NUL right behind the matched block, before and beyond the \
+         64 KiB sniff window. \
          Excluded: --null-data (NUL is then the requested line terminator), encodings, preprocessors. \
          Non-trivial (bs, cli) = binary data was detected and at least one line matched. Distinct by case text.",
     );
@@ -1527,6 +1765,7 @@ fn main() {
                 1 | 2 => gen_bs(&mut rng, i % 50 == 1).case_str(),
                 _ if i % 40 == 7 => gen_cli_ctx(&mut rng).case_str(),
                 _ if i % 40 == 27 => gen_cli_bnd(&mut rng).case_str(),
+                _ if i % 20 == 11 || i % 20 == 19 => gen_clir(&mut rng).case_str(),
                 _ if i % 8 == 3 => gen_cli2(&mut rng).case_str(),
                 _ => gen_cli(&mut rng, i % 60 == 3).case_str(),
             };
